@@ -28,6 +28,36 @@ CLAIMED = {
  "C16": ("Lean proof: len_eq, visitBlocks_perm, visitRandom_perm for every size; correspondence at sizes 0..70, 1023..1025, 2047..2049",
          "For every search tree and every permuting mangler/shuffle the block visitors deliver a permutation of the items; Len is exact. Compared (as sorted multisets) against the package for every n in 0..70 and around 1024/2048 (thorough: 3072, 5000, random sizes).",
          "Early stop inside a block is not part of the compared observable."),
+ "C03": ("Lean proof: scan_crash_atomic / openStore_crash_atomic (greatest valid root end), append-only prefix; crash-image enumeration",
+         "For every image that keeps the bytes below the last durable end E and has no complete root record above E, opening lands exactly on the flush that ended at E; every Flush write (torn or not) keeps that prefix. The harness cuts the write log at every write boundary, every byte of root-record writes and sampled (thorough: all) bytes of other writes, with magic-marker values and altered copies of root records as junk, re-opens each image with the real package and the model, and continues a sample of recovered stores.",
+         "The junk hypothesis (no complete self-consistent root record above E) is the property's own exclusion."),
+ "C05": ("Lean proof on interleaving Model C (all schedules) + lock-discipline theorems on regenerated lock tables + deterministic-scheduler trace validation",
+         "read_one_version, no_lost_update, flush_persists_current_versions, flush_name_order, no_deadlock for all programs and all schedules of the model; no mutex held across file I/O or callbacks and a fixed lock order (decide on tables regenerated from /repo). The real package is run under a seeded cooperative scheduler (yield hooks, file calls, visitor callbacks) and every read / every concurrent Flush image is validated against the version it pinned.",
+         "PARTIAL by nature: Go memory-model races on unsynchronised cache fills and real scheduler behaviour are outside the model; schedules are sampled, mutation marking is treated as atomic in Model H."),
+ "C07": ("Lean proof of fault-injected Flush (any k-th write, any torn length): reported, changes nothing, keeps durable bytes, retry is ordinary; fault enumeration at every file call",
+         "Theorems over the model's fault plan; the harness injects one fault at every individual ReadAt/WriteAt/Stat/Truncate (sampled in quick, all in thorough; torn writes of sampled/all lengths), continues the history, and compares (a) with the fault-aware model, (b) with the specification 'as if the failed call had never been made', plus heap-invariant checks after every failed call.",
+         "Read faults are modelled as 'no state change' (the model has no cache); their real-code effect is covered by enumeration."),
+ "C09": ("Lean proof: Flush log beyond durable end, prefix unchanged (with faults), revert truncation; decide on regenerated call graph: no read-only entry reaches WriteAt/Truncate",
+         "Dynamic theorems for every Flush/CopyTo/FlushRevert of the model; static theorem no_write_reachable over the call graph regenerated from /repo on every run (closure certificate checked in Lean), write_sites/truncate_sites equalities, tools/view read-only. The memfile's complete call log is checked call by call (appendcheck) and compared with the model's write log.",
+         "Soundness of the translator's call graph (closures, method values, interface dispatch, json reflection edges) is trusted."),
+ "C11": ("Lean proof: copyTo_contents for every flushEvery, independence of flushEvery, destination-only writes; correspondence",
+         "copy_equivalent holds for every source and every flushEvery; the package's CopyTo (writable stores, snapshots, evicted and re-opened sources, fe in {-1,0,1,2,3,5,100}) is compared on destination contents, destination image and re-opened destination, source contents and source write log.",
+         "'holds only live data' is checked through byte-exact destination images against the model, not stated as its own theorem."),
+ "C14": ("Lean proof: codec round trips, root record, flush_then_open with the independent decoder; decide on regenerated constants; decoder run on the implementation's bytes",
+         "Item/node/root round trips, decode_flushed_file, coherent (children-before-parent) layout; obligations on constants regenerated from /repo (version, magics, header offsets, record lengths, JSON tags, byte order). Every flushed image of the package is decoded by the Lean codec and compared with what the package reads back, and byte-compared with the model's image.",
+         "Names needing JSON escapes: executable codec + correspondence only (root_roundtrip_partial)."),
+ "C17": ("Lean proof: chunked value writes/reads equal single ones; correspondence under random subsets of callbacks",
+         "In the model a neutral callback is the identity; the non-trivial part (chunked ItemValWrite/ItemValRead) is proved. The package runs the C01/C02/C06/C14 observables with random subsets (thorough: many more) of the eight callbacks installed and is compared with the callback-free model, file images included.",
+         "Chunk sizes 3 (write) and 5 (read) in the harness callbacks."),
+ "C18": ("Lean proof on the two-goroutine iterator model (all programs, all interleavings) + lock-discipline tables; iterator and nested-callback correspondence",
+         "no_panic, no_deadlock, terminates, producer_exits_and_unpins, next_after_end_is_false, observable_deterministic for every item list, consumer program and interleaving; callbacks never run under a mutex (regenerated tables). Real iterators are driven with random Next/Close programs; outputs, goroutine count and version pin are checked; visitor callbacks issue nested reads and mutations.",
+         "PARTIAL: real scheduler interleavings of the two goroutines are sampled, not enumerated; abandoned iterators are excluded by the property."),
+ "C15": ("Lean proof of the reference accounting invariant over all event sequences; callback-log predicates on the implementation",
+         "accounting / never_negative / reachable_positive / closed_balanced for every precondition-respecting sequence of the seven reference events. The package runs with counting ItemAlloc/ItemAddRef/ItemDecRef callbacks over histories with snapshots, evictions, flushes, re-opens, nested visits; after every step no count is negative and every cached reachable item is positive; after closing everything all counts are zero.",
+         "The event model is tied to the code only through these predicates (not an event-by-event log comparison); Get's aliasing reference is counted as the caller's; faults are outside C15's quantifier."),
+ "C19": ("Lean proof: open_reads_root_only (exact read list of the scan), key-only loads never touch value bytes, flush writes tile the file; read-log checks on the implementation",
+         "The model of NewStore's reads is the Go loop position by position; for files ending in a root record exactly Stat + 2 reads. Key-only traversals in any cache state read only node records and header+key ranges; records never overlap. On the implementation, every open's read list is compared exactly and every read of every key-only call (GetItem/Min/Max/visit without value, Exist, Len, Set, Delete) is checked against the value ranges of all item records ever flushed.",
+         "Value ranges are computed by the model from its own (byte-identical) file image."),
 }
 
 PENDING = {
